@@ -1,8 +1,8 @@
 #!/bin/sh
-# usage: run_benign.sh <worktree> [checks...]
+# usage: tools/run_on_tree.sh <worktree> [checks...]
 wt="$1"; shift
 cd /verif
 checks="$*"; [ -z "$checks" ] && checks="C01 C02 C03 C04 C05 C06 C07 C08 C09 C10 C11 C12 C13 C14 C15 C16 C17 C18 C19 C20"
 for c in $checks; do
-  VERIF_EVIDENCE_DIR=/tmp/ev_exp VERIF_REPO="$wt" timeout 2400 ./vf check $c --tier quick 2>&1 | grep -E "^$c (OK|VIOLATION|INCONCLUSIVE)|^VIOLATION|^SPURIOUS|^INCONCLUSIVE|what:" | cut -c1-420
+  VERIF_EVIDENCE_DIR=${VERIF_EVIDENCE_DIR:-/var/tmp/bioscrape-verif-evidence-scratch} VERIF_REPO="$wt" timeout 2400 ./vf check $c --tier quick 2>&1 | grep -E "^$c (OK|VIOLATION|INCONCLUSIVE)|^VIOLATION|^SPURIOUS|^INCONCLUSIVE|what:" | cut -c1-420
 done
